@@ -2,8 +2,8 @@ package main
 
 import (
 	"fmt"
-	"go/types"
 	"go/token"
+	"go/types"
 	"strings"
 
 	"golang.org/x/tools/go/ssa"
@@ -15,6 +15,13 @@ import (
 //	C13.fresh   the containers a query fills (index map) are allocated by that call itself
 //	C13.writer  the builder writes each delta as ⌊delta/2^P⌋ one-bits, a zero bit, then the low P bits —
 //	            the code the element reader (C13.reader) decodes; any other encoder is reported undecided
+//
+// everyRule is the name under which the "every item is hashed" obligations are filed (C14 reuses them for the builder).
+var everyRule = "C13.every"
+
+// everyOnly: file only the "every item is hashed" obligations (used by C14 for the builder)
+var everyOnly = false
+
 func c13extra(p *Program, r *Report, scope []*ssa.Function, inScope map[*ssa.Function]bool) {
 	ef := NewEffects(p)
 	nEvery, nFresh := 0, 0
@@ -113,8 +120,11 @@ func c13extra(p *Program, r *Report, scope []*ssa.Function, inScope map[*ssa.Fun
 							okAll, how = false, "the loop is not a range over the whole item list"
 						}
 					}
-					r.Add("C13.every", FnName(fn), "every item of "+ia.X.Name()+" is hashed", x.Pos(), okAll, how)
+					r.Add(everyRule, FnName(fn), "every item of "+ia.X.Name()+" is hashed", x.Pos(), okAll, how)
 				case *ssa.MapUpdate:
+					if everyOnly {
+						continue
+					}
 					nFresh++
 					src := ef.Src(x.Map)
 					fresh := len(src) > 0
@@ -129,12 +139,15 @@ func c13extra(p *Program, r *Report, scope []*ssa.Function, inScope map[*ssa.Fun
 		}
 	}
 	if nEvery == 0 {
-		r.Unresolved("C13.every", "hashing loops over item lists")
+		r.Unresolved(everyRule, "hashing loops over item lists")
+	}
+	r.Floor(everyRule, 1)
+	if everyOnly {
+		return
 	}
 	if nFresh == 0 {
 		r.Unresolved("C13.fresh", "index map of the hash-based strategy")
 	}
-	r.Floor("C13.every", 1)
 	r.Floor("C13.fresh", 1)
 
 	gcsWriterRule(p, r, "C13.writer")
